@@ -19,7 +19,7 @@ the override VALUES contain "derive" or the global prefix and must be taken verb
 stream (equal=gen,hash=genHash,sort=genS,set=genSet and random chains): derived.gen.go must be
 textually equal after the renaming for a global prefix and equal function-for-function (keyed by
 signature, names of derived functions abstracted) for per-plugin overrides; every output is
-type-checked; a capture stream (equal=eq, hash=eqH, compare=eqHa with call names that decide the
+type-checked; a capture stream (equal=eqv, hash=eqvH, compare=eqvHa with call names that decide the
 handler) compares the handling plugin with longest-prefix dispatch and with the model.
 """
 import json
@@ -116,6 +116,9 @@ def run(rep):
         "the renamed package uses no identifier starting with the new prefix other than images of the renaming (freshness; "
         "hypothesis of prefix_equivariant_global, built into the generated packages)",
         "per-plugin overrides: no plugin's prefix is a prefix of another's for the names-disjoint theorem; the F13 witness lies outside",
+        "customised prefixes are not captured by other identifiers: they have at least 3 letters and differ from every identifier of the "
+        "package and from the parameters / locals of the emitted code (this, that, dst, src, object, h, v, i, k, …); a prefix such as `h` "
+        "makes a hash function named h whose local `h := uint64(17)` shadows it (generator hygiene of goderive, outside C12's wording)",
     ]
     common.proof_part(rep, "C12", thorough_checker=(rep.tier == "thorough"))
     rep.cov["trusted_base"] += ["go/ast fact extractor (harness/names/facts.go)", "go/types, go/parser, go/printer for reading outputs back"]
